@@ -165,6 +165,8 @@ def run(ctx):
         nv = dlrules.verdict_gates(ck, prog, config, 'C15-d', (('validate_chunk', None, None),))
         ck.min_instances('positive-verdict exits of validate_chunk', nv, 1)
         dlrules.digest_intact(ck, prog, config, 'C15-d', ('validate_chunk',))
+        from . import c19 as _c19
+        _c19.shared_scratch(ck, prog, config, 'C15-e', ('comp_read',), 'unit decoding')
         for e in ends:
             unit_decoding = bool(reaches(prog, e, ('comp_add_to_dc',)))
             d = decs.get(e.unit)
